@@ -208,13 +208,21 @@ DMeth(n, argc) == <<[k |-> "method", f |-> F(FALSE, 0, <<n>>), w |-> 1, flags |-
 DRegion(n) == [k |-> "decl", kind |-> "OpRegion", f |-> F(FALSE, 0, <<n>>), args |-> <<TByte(1), [t |-> "word", n |-> <<4096>>], TByte(16)>>]
 DField(r, a, b) == [k |-> "field", f |-> F(FALSE, 0, <<r>>), w |-> 1, flags |-> 1, els |-> <<[e |-> "unit", name |-> a, bits |-> 8, wl |-> 1], [e |-> "unit", name |-> b, bits |-> 8, wl |-> 1]>>]
 PreNone   == <<>>
+\* \_SB_.DEV1.REG1 / IDX1 / DAT1: names with three segments (multi-name prefix) for the positions that are never looked up
 PreFields == <<DRegion("REG0"), DField("REG0", "IDX0", "DAT0"), DName("NAM0", TByte(7))>> \o DMeth("MTH0", 0)
-             \o <<[k |-> "scope", f |-> F(TRUE, 0, <<"_SB_">>), w |-> 1], DRegion("REG1"), DField("REG1", "IDX1", "DAT1"), [k |-> "close"]>>
+             \o <<[k |-> "scope", f |-> F(TRUE, 0, <<"_SB_">>), w |-> 1],
+                  [k |-> "open", kind |-> "Device", f |-> F(FALSE, 0, <<"DEV1">>), w |-> 1, args |-> <<>>],
+                  DRegion("REG1"), DField("REG1", "IDX1", "DAT1"), [k |-> "close"], [k |-> "close"]>>
 PreDecls  == <<DName("NAM0", TByte(7))>> \o DMeth("MTH0", 0) \o DMeth("MTH1", 1)
              \o <<[k |-> "open", kind |-> "Device", f |-> F(FALSE, 0, <<"DEV0">>), w |-> 1, args |-> <<>>], DName("NAM1", TByte(1)), [k |-> "close"]>>
 PreBody   == <<DName("NAM0", TByte(7)), [k |-> "decl", kind |-> "Mutex", f |-> F(FALSE, 0, <<"MUT0">>), args |-> <<TByte(0)>>],
                [k |-> "decl", kind |-> "Event", f |-> F(FALSE, 0, <<"EVT0">>), args |-> <<>>],
-               [k |-> "open", kind |-> "Device", f |-> F(FALSE, 0, <<"DEV0">>), w |-> 1, args |-> <<>>], [k |-> "close"]>>
+               [k |-> "open", kind |-> "Device", f |-> F(FALSE, 0, <<"DEV0">>), w |-> 1, args |-> <<>>], [k |-> "close"],
+               [k |-> "scope", f |-> F(TRUE, 0, <<"_SB_">>), w |-> 1],
+               [k |-> "open", kind |-> "Device", f |-> F(FALSE, 0, <<"DEV1">>), w |-> 1, args |-> <<>>],
+               [k |-> "decl", kind |-> "Mutex", f |-> F(FALSE, 0, <<"MUT1">>), args |-> <<TByte(2)>>],
+               [k |-> "open", kind |-> "Device", f |-> F(FALSE, 0, <<"DEV2">>), w |-> 1, args |-> <<>>], [k |-> "close"],
+               [k |-> "close"], [k |-> "close"]>>
              \o DMeth("MTH0", 0) \o DMeth("MTH1", 1) \o DMeth("MTH2", 2)
              \o <<[k |-> "method", f |-> F(FALSE, 0, <<"MAIN">>), w |-> 2, flags |-> 1]>>
 
